@@ -59,17 +59,22 @@ def run_traces(ctx, jobs, max_legs, seeds=(1,)):
     payloads = []
     for (c, ov) in jobs:
         for s in seeds:
-            payloads.append({"config": c, "seed": s, "max_legs": max_legs, "overrides": ov})
+            if isinstance(ov, str):      # harness-generated configuration: (label, ini text)
+                payloads.append({"config": c, "ini_text": ov, "seed": s, "max_legs": max_legs, "overrides": {}})
+            else:
+                payloads.append({"config": c, "seed": s, "max_legs": max_legs, "overrides": ov})
     trs = C.run_driver_parallel(ctx, "trace_run", payloads, timeout=1200)
     for tr, pl in zip(trs, payloads):
         tr["overrides"] = pl["overrides"]
+        tr["ini_text"] = pl.get("ini_text")
     return trs
 
 
 def standard_jobs(ctx):
     cfgs = shipped_configs(ctx)
     jobs = [(c, {}) for c in cfgs]
-    jobs += variations(ctx, cfgs, ctx.n(12, 120))
+    jobs += variations(ctx, cfgs, ctx.n(8, 100))
+    jobs += generated_jobs(ctx, ctx.n(10, 100))
     return jobs
 
 
@@ -218,7 +223,8 @@ def run_history_check(ctx, prop, oracle_props, encoders, trusted, assumptions, e
         ti, p, f = all_fail[0]
         tr = trs[ti]
         C.violation(ctx, "oracle", {"kind": "trace", "payload": {"config": tr["config"], "seed": tr["seed"],
-                                    "overrides": tr.get("overrides") or {}, "max_legs": f["leg"] + 2},
+                                    "overrides": tr.get("overrides") or {}, "max_legs": f["leg"] + 2,
+                                    "ini_text": tr.get("ini_text")},
                                     "leg": f["leg"], "message": f["msg"], "n_failing": len(all_fail),
                                     "other_failures": [(trs[a]["config"], b, c) for a, b, c in all_fail[1:6]]},
                     "%s fails on a real run: %s (leg %d of %s)" % (prop, f["msg"], f["leg"], tr["config"]))
@@ -226,7 +232,8 @@ def run_history_check(ctx, prop, oracle_props, encoders, trusted, assumptions, e
         name, ti = mism[0]
         tr = trs[ti]
         C.violation(ctx, "conformance", {"kind": "trace", "payload": {"config": tr["config"], "seed": tr["seed"],
-                                         "overrides": tr.get("overrides") or {}, "max_legs": coq_legs},
+                                         "overrides": tr.get("overrides") or {}, "max_legs": coq_legs,
+                                         "ini_text": tr.get("ini_text")},
                                          "message": "recorded run is not accepted by the Coq model (%s); the "
                                          "model-independent oracle found no failing step; correspondence %s no longer "
                                          "checks" % (name, name), "n_mismatching_traces": len(mism)},
@@ -384,3 +391,89 @@ def encode_stcase(tr, max_legs=None):
 
 STALE_HEADER = ("Require Import JF.Base.F64 JF.Model.Kinematics JF.Model.Stale.\n"
                 "From Coq Require Import ZArith.")
+
+
+# ----------------------------------------------------------------------------------------------
+# Harness-generated configurations (not derived from a shipped file): soft spheres in cubic and
+# NON-CUBIC boxes of dimension 2-3, with and without a cell system with unequal cell counts, both
+# schedulers, periodic / sequential end of chain, sampling intervals commensurate with the chain time.
+def generated_ini(rng):
+    dim = rng.choice([2, 3])
+    cubic = rng.random() < 0.3
+    if cubic:
+        L = rng.choice([1.0, 2.0, 0.7])
+        setting = "hypercubic_setting"
+        ssec = "[HypercubicSetting]\nsystem_length = %r\nbeta = %r\ndimension = %d\n" % (L, rng.choice([1.0, 2.0]), dim)
+        lengths = [L] * dim
+    else:
+        lengths = [rng.choice([3.0, 2.0, 1.5, 1.0, 0.8, 2.5]) for _ in range(dim)]
+        if len(set(lengths)) == 1:
+            lengths[0] = lengths[0] * 1.5
+        setting = "hypercuboid_setting"
+        ssec = "[HypercuboidSetting]\nsystem_lengths = %s\nbeta = %r\ndimension = %d\n" % (
+            ", ".join(repr(x) for x in lengths), rng.choice([1.0, 2.0]), dim)
+    n = rng.choice([2, 3, 4, 5, 6, 8])
+    cells = rng.random() < 0.65
+    sched = rng.choice(["heap_scheduler", "list_scheduler"])
+    dt = rng.choice([0.25, 0.5, 0.3, 0.56789])
+    chain = rng.choice([dt, 2 * dt, 0.78965, 4.3, 1.1])
+    seq = False      # the invertible pair potentials need an axis-aligned velocity
+    eoc = ("single_independent_active_sequential_direction_end_of_chain_event_handler" if seq
+           else "single_independent_active_periodic_direction_end_of_chain_event_handler")
+    eoc_sec = ("[SingleIndependentActiveSequentialDirectionEndOfChainEventHandler]\nchain_time = %r\n"
+               "delta_phi_degree = %r\n" % (chain, rng.choice([10.0, 45.0, 33.3])) if seq else
+               "[SingleIndependentActivePeriodicDirectionEndOfChainEventHandler]\nchain_time = %r\n" % chain)
+    interact = "pair"
+    taggers = ["pair (factor_type_map_in_state_tagger)", "sampling (no_in_state_tagger)",
+               "end_of_chain (active_global_state_in_state_tagger)", "end_of_run (no_in_state_tagger)",
+               "start_of_run (no_in_state_tagger)"]
+    moving = ["pair"]
+    extra = ""
+    internal = ""
+    if cells:
+        cps = [rng.choice([3, 4, 5, 6]) for _ in range(dim)]
+        taggers.insert(1, "cell_boundary (cell_boundary_tagger)")
+        moving.append("cell_boundary")
+        internal = "internal_states = single_active_cell_occupancy\n"
+        extra = ("[SingleActiveCellOccupancy]\ncells = cuboid_periodic_cells\ncell_level = 1\n"
+                 "maximum_number_occupants = %d\n[CuboidPeriodicCells]\ncells_per_side = %s\n"
+                 "[CellBoundary]\ncreate = cell_boundary\ntrash = cell_boundary\n"
+                 "internal_state_label = single_active_cell_occupancy\nevent_handler = cell_boundary_event_handler\n"
+                 % (rng.choice([1, 2, -1]), ", ".join(map(str, cps))))
+    mv = ", ".join(moving)
+    ini = ("[Run]\nmediator = single_process_mediator\nsetting = %s\n%s"
+           "[SingleProcessMediator]\nstate_handler = tree_state_handler\nscheduler = %s\nactivator = tag_activator\n"
+           "input_output_handler = input_output_handler\n"
+           "[TagActivator]\ntaggers =\n    %s\n%s"
+           "[Pair]\ncreate = %s\ntrash = %s\nevent_handler = two_leaf_unit_event_handler\n"
+           "number_event_handlers = %d\nfactor_type_maps = factor_type_maps\nfactor_type_maps_label = coulomb\n"
+           "[FactorTypeMaps]\nfilename = config_files/factor_set_files/factor_set_coulomb_atoms.txt\n"
+           "[TwoLeafUnitEventHandler]\npotential = inverse_power_potential\n"
+           "[InversePowerPotential]\nprefactor = %r\npower = %r\n"
+           "%s"
+           "[Sampling]\ncreate = sampling\ntrash = sampling\nevent_handler = fixed_interval_sampling_event_handler\n"
+           "[FixedIntervalSamplingEventHandler]\nsampling_interval = %r\noutput_handler = separation_output_handler\n"
+           "[EndOfChain]\ncreate = end_of_chain, %s\ntrash = end_of_chain, %s\nevent_handler = %s\n%s"
+           "[EndOfRun]\ncreate = end_of_run\ntrash = end_of_chain, %s, sampling, end_of_run\n"
+           "event_handler = final_time_end_of_run_event_handler\n"
+           "[FinalTimeEndOfRunEventHandler]\nend_of_run_time = %r\n"
+           "[StartOfRun]\ntrash = start_of_run\ncreate = %s, sampling, end_of_chain, end_of_run\n"
+           "event_handler = initial_chain_start_of_run_event_handler\n"
+           "[InitialChainStartOfRunEventHandler]\ninitial_direction_of_motion = %d\nspeed = %r\n"
+           "initial_active_identifier = %d\n"
+           "[TreeStateHandler]\nphysical_state = tree_physical_state\nlifting_state = tree_lifting_state\n"
+           "[InputOutputHandler]\noutput_handlers = separation_output_handler\ninput_handler = random_input_handler\n"
+           "[RandomInputHandler]\nrandom_node_creator = atom_random_node_creator\nnumber_of_root_nodes = %d\n"
+           "[AtomRandomNodeCreator]\ncharge_values = electric_charge_values (charge_values)\n"
+           "[ElectricChargeValues]\ncharge_name = electric_charge\ncharge_values = 1\n"
+           "[SeparationOutputHandler]\nfilename = output/generated_SamplesOfSeparation.dat\n"
+           % (setting, ssec, sched, ",\n    ".join(taggers), internal, mv, mv, 2 * n,
+              rng.choice([1.0, 0.1, 1e-3]), rng.choice([1.0, 2.0, 6.0]), extra, dt, mv, mv, eoc, eoc_sec, mv,
+              rng.choice([3.0, 7.5, 20.0]), mv, rng.randrange(dim), rng.choice([1.0, 2.0, 0.5]), rng.randrange(n), n))
+    label = "generated:%s dim=%d L=%s n=%d cells=%s %s eoc=%s" % (
+        "cubic" if cubic else "cuboid", dim, lengths, n, cells, sched, "seq" if seq else "per")
+    return label, ini
+
+
+def generated_jobs(ctx, n):
+    return [generated_ini(ctx.rng) for _ in range(n)]
